@@ -743,9 +743,45 @@ def slice_c05c():
     return out
 
 
+def slice_c20():
+    tree = ast.parse((REPO_SRC / 'caching.py').read_text())
+    fn = find_function(tree, 'weak_lru_cache')
+    defaults = {a.arg: ast.unparse(d) for a, d in zip(fn.args.args, fn.args.defaults)}
+    wrapper = next((n for n in fn.body if isinstance(n, ast.FunctionDef) and n.name == 'wrapper'), None)
+    if wrapper is None:
+        raise Untranslatable('weak_lru_cache: inner function `wrapper` not found')
+    inner_fns = {n.name: n for n in wrapper.body if isinstance(n, ast.FunctionDef)}
+    if set(inner_fns) != {'_func', 'inner'}:
+        raise Untranslatable(f'weak_lru_cache.wrapper defines {sorted(inner_fns)}')
+    def body(f):
+        return [ast.unparse(x) for x in f.body if not (isinstance(x, ast.Expr) and isinstance(x.value, ast.Constant) and isinstance(x.value.value, str))]
+    cap = defaults.get('maxsize')
+    if cap is None or not cap.isdigit():
+        raise Untranslatable('default maxsize is not an integer literal')
+    out = f'/-- caching.py weak_lru_cache: default number of entries kept -/\ndef cacheCapacity : Nat := {int(cap)}\n\n'
+    out += flag('memoIsLruOnWeakReference', [ast.unparse(d) for d in inner_fns['_func'].decorator_list] == ['functools.lru_cache(maxsize, typed)']
+                and body(inner_fns['inner']) == ['return _func(weakref.ref(self), *args, **kwargs)']
+                and [ast.unparse(d) for d in inner_fns['inner'].decorator_list] == ['functools.wraps(func)']
+                and [ast.unparse(x) for x in wrapper.body if isinstance(x, ast.Return)] == ['return inner'],
+                'the memo is functools.lru_cache keyed on (weakref.ref(self), *args, **kwargs): the key compares equal only for the same LIVE object, not for an address')
+    out += '\n' + flag('memoStoresOnlyResults', body(inner_fns['_func']) == ['return func(_self(), *args, **kwargs)'],
+                       'the cached function calls the method on the dereferenced object and stores nothing but its result (no exception, traceback or object reference)')
+    # which methods are cached
+    cached = []
+    for path in sorted(REPO_SRC.glob('*.py')):
+        t = ast.parse(path.read_text())
+        for cls in [n for n in t.body if isinstance(n, ast.ClassDef)]:
+            for m in [n for n in cls.body if isinstance(n, ast.FunctionDef)]:
+                if any(ast.unparse(d).startswith('weak_lru_cache') for d in m.decorator_list):
+                    cached.append(f'{path.stem}.{cls.name}.{m.name}')
+    out += ('\n/-- every method decorated with `weak_lru_cache` in the package -/\n'
+            'def cachedMethods : List String := [' + ', '.join(f'"{c}"' for c in cached) + ']\n')
+    return HEADER + out + '\nend G.Gen\n'
+
+
 SLICES = {'FormulasC01': slice_c01, 'FormulasC02': slice_c02, 'FormulasC05': slice_c05, 'FormulasC06': slice_c06, 'FormulasC08': slice_c08,
           'FormulasC09': slice_c09, 'FormulasC10': slice_c10, 'FormulasC11': slice_c11, 'FormulasC12': slice_c12,
-          'FormulasC14': slice_c14, 'FormulasC17': slice_c17, 'FormulasC18': slice_c18, 'FormulasC19': slice_c19}
+          'FormulasC14': slice_c14, 'FormulasC17': slice_c17, 'FormulasC18': slice_c18, 'FormulasC19': slice_c19, 'FormulasC20': slice_c20}
 
 
 def render(name):
